@@ -41,6 +41,13 @@ type ObAgg struct {
 	Sched     []int           `json:"schedule,omitempty"`
 	Detail  string            `json:"detail,omitempty"`
 	Scripts []scriptRec       `json:"-"`
+	Alts    []altModel        `json:"-"` // models of other violating paths (tried when the first does not replay)
+}
+
+type altModel struct {
+	Model     map[string]string
+	Decisions []int
+	Sched     []int
 }
 
 type HarnessResult struct {
@@ -173,6 +180,8 @@ func explore(prog *ssa.Program, fn *ssa.Function, cfg ExploreConfig) *HarnessRes
 						a.Model = ob.Model
 						a.Decisions = ob.Decisions
 						a.Sched = ob.Sched
+					} else if len(a.Alts) < 12 && ob.Model != nil {
+						a.Alts = append(a.Alts, altModel{ob.Model, ob.Decisions, ob.Sched})
 					}
 				default:
 					a.Unknown++
